@@ -81,6 +81,20 @@ var xlWhitelist = []xlFunc{
 	{Pkg: "pipeline", Name: "safeBoolDeref", Lean: "safeBoolDeref"},
 	{Pkg: "pipeline", Name: "safeStrListSize", Lean: "safeStrListSize"},
 	{Pkg: "pipeline", Name: "safeCopyIntSlice", Lean: "safeCopyIntSlice"},
+	// String() methods of the pipeline types [C15, brief mext7c]; hand-written counterparts in YtkModel/OpStrings.lean
+	{Pkg: "pipeline", Recv: "AbortOp", Name: "String", Lean: "AbortOp_String", Flatten: true},
+	{Pkg: "pipeline", Recv: "ExtOp", Name: "String", Lean: "ExtOp_String", Flatten: true},
+	{Pkg: "pipeline", Recv: "Html2DomOp", Name: "String", Lean: "Html2DomOp_String", Flatten: true},
+	{Pkg: "pipeline", Recv: "ImportOp", Name: "String", Lean: "ImportOp_String", Flatten: true},
+	{Pkg: "pipeline", Recv: "LogOp", Name: "String", Lean: "LogOp_String", Flatten: true},
+	{Pkg: "pipeline", Recv: "LoopOp", Name: "String", Lean: "LoopOp_String", Flatten: true},
+	{Pkg: "pipeline", Recv: "PatchOp", Name: "String", Lean: "PatchOp_String", Flatten: true},
+	{Pkg: "pipeline", Recv: "SetOp", Name: "String", Lean: "SetOp_String", Flatten: true},
+	{Pkg: "pipeline", Recv: "TemplateFileOp", Name: "String", Lean: "TemplateFileOp_String", Flatten: true},
+	{Pkg: "pipeline", Recv: "TemplateOp", Name: "String", Lean: "TemplateOp_String", Flatten: true},
+	{Pkg: "pipeline", Recv: "ExecOp", Name: "String", Lean: "ExecOp_String", Flatten: true},
+	{Pkg: "pipeline", Recv: "ValOrRef", Name: "String", Lean: "ValOrRef_String", Flatten: true},
+	{Pkg: "pipeline", Recv: "ActionMeta", Name: "String", Lean: "ActionMeta_String", Flatten: true},
 }
 
 // regular expressions: pattern text -> GoPrelude function deciding MatchString
@@ -207,7 +221,7 @@ func genFuncs(repo string) (string, error) {
 	hdr := "/- GENERATED by /verif/extract (translate.go) from the repository's sources — do not edit.\n" +
 		"   Shallow Go→Lean translation of the whitelisted functions over YtkModel/GoPrelude.lean.\n" +
 		"   Equivalence with the hand-written model: theorems `*_generated_eq_model` in YtkProps/Cxx.lean. -/\n" +
-		"import YtkModel.GoPrelude\n\nset_option linter.unusedVariables false\n\nnamespace Ytk.Generated.Funcs\nopen Ytk\n\n"
+		"import YtkModel.GoPrelude\nimport YtkModel.GoPreludeFmt\n\nset_option linter.unusedVariables false\n\nnamespace Ytk.Generated.Funcs\nopen Ytk\n\n"
 	return genFrom(repo, xlWhitelist, false, hdr, "end Ytk.Generated.Funcs\n")
 }
 
